@@ -15,7 +15,8 @@ def case_from_replay(rp, insts):
     cs = rp['case']
     for inst in insts:
         if S.G.line_prefix(inst).split() == cs['line'].split()[:5]:
-            c = S.SCase(inst, cs['extents'], cs.get('strides'), cs['slices'], 'replay'); c.ops = list(rp['ops']); return c
+            c = S.SCase(inst, cs['extents'], cs.get('strides'), cs['slices'], 'replay'); c.ops = list(rp['ops'])
+            kv = dict(x.split('=') for x in cs['line'].split() if '=' in x); c.h = int(kv.get('h', 0)); c.id = int(kv.get('id', 0)); return c
     return None
 
 def analyse_C04(cases, rep):
@@ -24,6 +25,7 @@ def analyse_C04(cases, rep):
         same = True
         for op, xi, xm in zip(c.ops, c.impl, c.model):
             rep.cov['evaluations'] += 1
+            if op == 'mds' and not c.adm: continue      # pointer arithmetic far outside the buffer: not comparable
             if xi != xm:
                 same = False
                 rep.broke(payload(c, correspondence='sub family, exact transcript (%s)' % op, adm=c.adm, impl=xi[:400], model=xm[:400])); break
@@ -36,6 +38,15 @@ def analyse_C04(cases, rep):
         for k in c.inst[3]: kinds[k] = kinds.get(k, 0) + 1
         if info['ext'] != exts:
             rep.violation(payload(c, kind='result-extents-differ-from-slicing-rule', impl=info['ext'], specified=exts)); continue
+        md_ = c.out('mds')
+        if md_ is not None:
+            d = dict(x.split('=') for x in md_.split()) if md_.startswith('h=') else None
+            if d is None:
+                rep.violation(payload(c, kind='submdspan-undefined-on-valid-slices', impl=md_)); continue
+            want_h = c.h + info['off']; want_log = '%d,%d' % (-1 - c.h, info['off'])
+            if int(d['h']) != want_h or d.get('n') != '1' or d.get('log') != want_log or int(d['acc']) != c.id or d.get('same') != '1':
+                rep.violation(payload(c, kind='submdspan-handle/accessor-not-obtained-through-accessor.offset()-and-offset_policy', impl=md_,
+                                      specified='h=%d acc=%d n=1 log=%s same=1' % (want_h, c.id, want_log))); continue
         a = c.out('alias')
         if a is None: continue
         got = vals(a)
@@ -62,7 +73,7 @@ def analyse_C10(cases, rep):
         info = S.parse_info(xi)
         if info is None:
             rep.violation(payload(c, kind='submdspan_mapping-undefined-on-valid-slices', impl=xi)); continue
-        at_end = any((p[0] in 'rt' and int(p.split(':')[1]) == e) or (p[0] in 'sSQ' and int(p.split(':')[1]) == e) for p, e in zip(c.sl, c.ext))
+        at_end = any((p[0] in 'rt' and int(p.split(':')[1]) == e) or (p[0] in 'sSQUZ' and int(p.split(':')[1]) == e) for p, e in zip(c.sl, c.ext))
         if at_end: n_end += 1
         rep.nontrivial(c.base())
         sspan = S.src_span(c)
